@@ -229,6 +229,7 @@ PROPS["C12"]["tasks"] = PROPS["C12"]["tasks"] + ["Fundamentals.get_fundamental_p
 for _p in ("C17", "C06"):
     PROPS[_p]["tasks"] = PROPS[_p]["tasks"] + ["IndexMarket.get_fundamental_index"]
 PROPS["C18"]["tasks"] = PROPS["C18"]["tasks"] + ["SequentialRunner._setup"]
+PROPS["C12"]["tasks"] = PROPS["C12"]["tasks"] + ["SequentialRunner._set_fundamental_correlation[pair]"]
 from .census import CALLERS as _CALLERS
 for _g, (_ps, _r, _t) in _CALLERS.items():
     for _p in _ps:
